@@ -29,8 +29,7 @@ def main(argv=None):
         from gtsim import engine, util
 
         record = json.load(open(a.replay))
-        mod, kw = engine._load(record["property"])
-        v = mod.replay(record)
+        v = engine.replay_record(record["property"], record)
         if v is None:
             print(f"replay {a.replay}: no violation")
             return 0
